@@ -824,13 +824,57 @@ func (c *Ctx) listRowColumns(rule string, row callSite, cols []ssa.Value) {
 	if full {
 		// the keys of the reply's map (sorted or not)
 		var fromTargets func(v ssa.Value, d int) bool
+		seenV := map[ssa.Value]bool{}
 		fromTargets = func(v ssa.Value, d int) bool {
-			if d > 4 {
+			if d > 8 {
 				return false
 			}
 			v = resolve(v)
+			if seenV[v] {
+				return true
+			}
+			seenV[v] = true
 			if isLoadOfField(v, targetsF) {
 				return true
+			}
+			switch x := v.(type) {
+			case *ssa.MakeSlice:
+				return true // the empty list the names are collected into
+			case *ssa.Slice:
+				if a, ok := x.X.(*ssa.Alloc); ok && len(varargElems(x)) == 0 {
+					_ = a
+					return true // []string{}
+				}
+			case *ssa.Phi:
+				for _, e := range x.Edges {
+					if !fromTargets(e, d+1) {
+						return false
+					}
+				}
+				return true
+			case *ssa.Call:
+				if b, ok := x.Call.Value.(*ssa.Builtin); ok && b.Name() == "append" && len(x.Call.Args) == 2 {
+					// names = append(names, <key of a pass over the reply's map>)
+					if !fromTargets(x.Call.Args[0], d+1) {
+						return false
+					}
+					els := varargElems(x.Call.Args[1])
+					for _, el := range els {
+						e, ok := resolve(el).(*ssa.Extract)
+						if !ok || e.Index != 1 {
+							return false
+						}
+						nx, ok := e.Tuple.(*ssa.Next)
+						if !ok {
+							return false
+						}
+						rg, ok := nx.Iter.(*ssa.Range)
+						if !ok || !isLoadOfField(resolve(rg.X), targetsF) {
+							return false
+						}
+					}
+					return len(els) >= 1
+				}
 			}
 			if call, ok := v.(*ssa.Call); ok && len(call.Call.Args) >= 1 {
 				switch {
